@@ -270,10 +270,10 @@ func TestC03(t *testing.T) {
 			}
 			return (call/pk)%2 == 0 // bursts
 		}
-		// partial application (whitelist) combined with checkpoints: fresh bowl only; the reference is
-		// the uninterrupted partial application
+		// partial application (whitelist) combined with checkpoints (either bowl); the reference is the
+		// uninterrupted partial application
 		var whitelist map[int64]bool
-		if !overlay && rapid.IntRange(0, 3).Draw(rt, "usewhitelist") == 0 {
+		if rapid.IntRange(0, 3).Draw(rt, "usewhitelist") == 0 {
 			whitelist = map[int64]bool{}
 			n := len(pair.New.Files())
 			for i := 0; i < n; i++ {
